@@ -97,6 +97,10 @@ var rejections = []rejection{
 	{"stop_times.txt", "unknown-trip_id", map[string]string{"trip_id": "NOSUCH"}, 1},
 	{"stop_times.txt", "blank-stop_id", map[string]string{"stop_id": ""}, 1},
 	{"stop_times.txt", "unknown-stop_id", map[string]string{"stop_id": "NOSUCH"}, 1},
+	// a rejected row of a known trip whose valid rows come elsewhere in the file
+	{"stop_times.txt", "unknown-stop_id-in-a-row-of-trip-T3", map[string]string{"stop_id": "NOSUCH", "trip_id": "=T3"}, 1},
+	{"stop_times.txt", "unknown-stop_id-in-a-row-of-trip-T1", map[string]string{"stop_id": "NOSUCH", "trip_id": "=T1"}, 1},
+	{"stop_times.txt", "blank-stop_id-in-a-row-of-trip-T2", map[string]string{"stop_id": "", "trip_id": "=T2"}, 1},
 	{"stop_times.txt", "bad-stop_sequence", map[string]string{"stop_sequence": "x1"}, 1},
 	{"stop_times.txt", "blank-stop_sequence", map[string]string{"stop_sequence": ""}, 1},
 	{"stop_times.txt", "no-parseable-time", map[string]string{"arrival_time": "soon", "departure_time": ""}, 1},
@@ -170,7 +174,11 @@ func spliceRejected(m *feedModel, rj rejection, pos int, tag string) []string {
 
 func c09Harness(nInsert int) Harness {
 	return func(c *Ctx) {
-		base := genStaticFeedN(c, false, baseCounts, nil, nil)
+		// three trips of two stop times each (blocks T1 T1 T2 T2 T3 T3), so that a rejected row can carry
+		// the id of a trip that is neither of its neighbours'
+		n := baseCounts
+		n.trips, n.stopTimes = 3, 6
+		base := genStaticFeedN(c, false, n, nil, nil)
 		// physical lines and data rows need not coincide: blank lines between rows, and a
 		// quoted cell spanning two lines in the first valid agency row
 		pres := presentation{BlankLines: c.Free("blank_lines_between_rows", 2) == 1}
